@@ -46,6 +46,7 @@ contract(M + 'divide_split', props=['C11'], pure=True,
 
 contract(M + 'divide_binomial', props=['C11'], pure=True,
          types={'state': 'Int', 'counts_1': 'Int', 'counts_2': 'Int', 'ret': 'Seq[Int]'},
+         requires=['state >= 0', 'state < 4611686018427387904'],       # (2**62) domain of numpy's binomial (a count that fits int64)
          ensures=['len(ret) == 2', 'ret[0] + ret[1] == state'],
          note='conservation holds for whatever np.random.binomial returns')
 
